@@ -118,7 +118,7 @@ func runSchedules(r *ev.Run) {
 		t.Run(func(c *explore.Chooser) {
 			a := &agent.Agent{NameID: "0000d001", Info: &agent.AgentInfo{}}
 			h := &hist{}
-			s := vsched.New(c, 2000, "JobQueue", "Tasks")
+			s := vsched.New(c, 2000, "JobQueue", "Tasks", "sync.Mutex")
 			sc.build(s, h, a, nil)
 			s.Run()
 			var rest []uint32
